@@ -38,13 +38,18 @@ class Pool(Model):
 
 
 def finder(it, n_in, n_gates, n_out=1):
+    """a CircuitFinderSat built by its REAL constructor (so that fields added by future versions exist), with the
+    CNF container and the variable pool replaced by their models"""
     m = it.load_module('cirbo.synthesis.circuit_search')
+    tm = it.load_module('cirbo.core.truth_table')
     cls = m.env['CircuitFinderSat']
+    table = VList([VList([False] * (1 << n_in)) for _ in range(n_out)])
+    model = it.call(tm.env['TruthTableModel'], [table], {})
+    o = it.call(cls, [model, n_gates], {'basis': 'FULL'})
     val = Valuation()
     sat0 = z3.Bool('sat0')
-    o = Obj(cls, {'_cnf': CnfView(val, sat0), '_vpool': Pool(), '_input_gates': VList(range(n_in)), '_number_of_gates': n_gates,
-                  '_internal_gates': VList(range(n_in, n_in + n_gates)), '_gates': VList(range(n_in + n_gates)), '_outputs': VList(range(n_out)),
-                  '_need_check_db': True, '_need_init_cnf': True, 'need_normalized': False})
+    o.fields['_cnf'] = CnfView(val, sat0)
+    o.fields['_vpool'] = Pool()
     return o, val, sat0
 
 
